@@ -53,6 +53,16 @@ FORMS = {
     'import twice': ("import olpkg.a\nimport olpkg.a as again", ['olpkg', 'again']),
     'from then import': ("from olpkg.sub import m\nimport olpkg.sub.n\nimport olpkg", ['m', 'olpkg']),
     'import then attribute': ("import olpkg.sub.m\nsm = olpkg.sub.m.val", ['olpkg', 'sm']),
+    'from pkg import subpackage': ("from olpkg import sub, p2 as second", ['sub', 'second']),
+    'from . import two': ("from . import m, n as n4", ['m', 'n4']),
+    'from .. import two': ("from .. import a, p2 as pp2, sub", ['a', 'pp2', 'sub']),
+    'import then deeper': ("import olpkg\nimport olpkg.sub.n\nnv = olpkg.sub.n.val", ['olpkg', 'nv']),
+    'attribute shadows submodule': ("from olpkg.amb import x", ['x']),
+    'attribute shadows submodule after import': ("import olpkg.amb.x\nfrom olpkg.amb import x as ax\nimport olpkg.amb.x as mx", ['olpkg', 'ax', 'mx']),
+    'module that imports a sibling': ("from olpkg.amb import y\nimport olpkg.amb.y as y2", ['y', 'y2']),
+    'import in two steps same alias': ("import olpkg.a as z\nimport olpkg.sub.m as z", ['z']),
+    'from import same name twice': ("from olpkg.a import val\nfrom olpkg.sub.m import val", ['val']),
+    'stdlib dotted and alias': ("import os.path as op, os\nfrom os.path import join as j, sep\nimport xml.dom.minidom", ['op', 'os', 'j', 'sep', 'xml']),
     'stdlib mix': ("import os.path, olpkg.a as oa\nfrom os import path as osp, sep", ['os', 'oa', 'osp', 'sep']),
 }
 PLACES = ['module', 'func', 'method', 'class', 'loop', 'if', 'closure', 'global-decl', 'nonlocal-decl', 'nested-class-in-func']
